@@ -576,10 +576,10 @@ def _run_read(ctx, obj, rq, frames, info):
                 # get_volume combines whole planes and crops afterwards: refusals (overlap, non-binary fractional
                 # values) are decided on the whole planes, the values are the crop
                 crop = (slice(None), slice(r0 - 1, r1 - 1), slice(c0 - 1, c1 - 1))
-                call = lambda: seg.get_volume(row_start=r0, row_end=r1, column_start=c0, column_end=c1, **kw).array  # noqa: E731
+                call = lambda: seg.get_volume(row_start=r0, row_end=r1, column_start=c0, column_end=c1, **kw)  # noqa: E731
                 model_keys = ('volume-cropped', seq)     # oracle only: the crop arithmetic is C03's
             else:
-                call = lambda: seg.get_volume(**kw).array  # noqa: E731
+                call = lambda: seg.get_volume(**kw)  # noqa: E731
                 model_keys = ('volume', seq)
     else:
         return None
@@ -592,11 +592,21 @@ def _run_read(ctx, obj, rq, frames, info):
     st, val = _fetch(call)
     if st == 'ok':
         val = post(val)
-        if entry == 'volume' and d['kind'] != 'tiled' and exp[0] == 'ok' and np.asarray(val).shape[0] == exp[1].shape[0]:
-            # which end of the stack comes first is a matter of geometry (C03): accept either direction
-            if _compare(val, exp[1], exp[2], d, rq) is not None and _compare(val, exp[1][::-1], exp[2], d, rq) is None:
-                exp = ('ok', exp[1][::-1], exp[2])
-                model_keys = (model_keys[0], model_keys[1][::-1])
+        if entry == 'volume' and d['kind'] != 'tiled':
+            # which end of the stack is slice 0 is a matter of geometry (C03); it is read off the returned affine:
+            # the generator puts slice i at origin + i * normal, so the component of the volume origin along the normal
+            # says which generator slice comes first
+            vol = val
+            val = np.asarray(vol.array)
+            seq = model_keys[1]
+            if len(seq) > 1:
+                order = d['order'] or list(range(d['planes']))
+                o0 = float(np.asarray(vol.affine)[2, 3])     # generator stacks along +z
+                first, last = order[seq[0]], order[seq[-1]]
+                if abs(o0 - last) < abs(o0 - first):
+                    model_keys = (model_keys[0], seq[::-1])
+                    if exp[0] == 'ok':
+                        exp = ('ok', exp[1][::-1], exp[2])
     case = {'obj': d, 'req': {k: v for k, v in rq.items()}}
     outcome = 'ok' if st == 'ok' else _err_kind(val)
     nontriv = None
